@@ -518,3 +518,16 @@ impl Engine for C20 {
         ]
     }
 }
+
+pub fn describe_run(master: u64, index: u64) -> String {
+    let mut rng = Rng::new(run_seed(master, "C20", index));
+    let scn = gen_scn(&mut rng, true);
+    format!(
+        "policy {:?}\ntemplates {:#?}\npartials {:#?}\ndata {:?}\nthreads {:?}",
+        scn.policy,
+        scn.world.template_src,
+        scn.world.partial_src,
+        scn.world.datas.iter().map(|d| d.show()).collect::<Vec<_>>(),
+        scn.threads.iter().map(|t| t.iter().map(|o| o.show()).collect::<Vec<_>>()).collect::<Vec<_>>()
+    )
+}
